@@ -310,6 +310,8 @@ pub struct ExploreStats {
     pub executions: u64,
     pub max_points: usize,
     pub capped: bool,
+    /// set when the callback asked to stop (e.g. after a deadlock: the worker threads of this process are lost)
+    pub abort: bool,
 }
 
 /// depth-first enumeration of every schedule with at most `bound` preemptions
@@ -319,8 +321,11 @@ pub fn explore<R: Send + 'static>(
     bound: usize,
     cap: u64,
     stats: &mut ExploreStats,
-    on_exec: &mut dyn FnMut(&Execution<R>, &[(usize, u32, Option<usize>)]),
+    on_exec: &mut dyn FnMut(&Execution<R>, &[(usize, u32, Option<usize>)]) -> bool,
 ) {
+    if stats.abort {
+        return;
+    }
     if stats.executions >= cap {
         stats.capped = true;
         return;
@@ -329,7 +334,10 @@ pub fn explore<R: Send + 'static>(
     stats.executions += 1;
     stats.max_points = stats.max_points.max(x.trace.len());
     let full: Vec<(usize, u32, Option<usize>)> = x.trace.iter().map(|p| (p.chosen, p.point_id, p.by)).collect();
-    on_exec(&x, &full);
+    if !on_exec(&x, &full) {
+        stats.abort = true;
+        return;
+    }
     if x.error.is_some() || x.infeasible || x.deadlock {
         return;
     }
